@@ -227,6 +227,27 @@ ok = ok and same('both filter identically', c.filter(doc).result, d.filter(doc).
 return ok
 """
         out.append(mk_case(f"c09.pathlike_literal.{cid}", [("a", "int"), ("u1", "int")], body, pre=[f"BU({L}, a, u1)"], stubs=["sym_repr"]))
+    # escaped literal mappings (`\\path` keys): the escape is recognised on any key of the mapping, wherever it sits, as the
+    # argument itself, as a list item and as a keyword value
+    for cid, spec, dsl, doc in [
+        ("second_key", "{'value.equal_to': {'key': a, BS + 'path': ['b']}}", "Value.equal_to({'key': a, 'path': ['b']})", "[{'key': u1, 'path': ['b']}, u1]"),
+        ("first_key", "{'value.equal_to': {BS + 'path': ['b'], 'key': a}}", "Value.equal_to({'path': ['b'], 'key': a})", "[{'key': u1, 'path': ['b']}, u1]"),
+        ("in_list.second_key", "{'value.in': [{'name': a, 'file' + BS + 'path': 'x'}, 3]}", "Value.in_([{'name': a, 'filepath': 'x'}, 3])", "[{'name': u1, 'filepath': 'x'}, 3, u1]"),
+        ("kwargs.third_key", "{'value.items_contain': {'cfg': {'a': 1, 'b': a, BS + 'Path.length': 0}}}", "Value.items_contain(cfg={'a': 1, 'b': a, 'Path.length': 0})", "[{'cfg': {'a': 1, 'b': u1, 'Path.length': 0}}, u1]"),
+        ("two_escaped", "{'value.not_equal_to': {BS + 'path': 1, 'my' + BS + 'PATH': a, 'z': 0}}", "Value.not_equal_to({'path': 1, 'myPATH': a, 'z': 0})", "[{'path': 1, 'myPATH': u1, 'z': 0}, u1]"),
+        ("single_key", "{'value.equal_to': {BS + 'path.first': [a]}}", "Value.equal_to({'path.first': [a]})", "[{'path.first': [u1]}, u1]"),
+    ]:
+        body = f"""
+BS = chr(92)
+spec = {spec}
+d = {dsl}
+c = ConditionLike.from_spec(spec)
+doc = {doc}
+ok = note('parsed condition equals the DSL-built one', c == d and type(c) is type(d))
+ok = ok and same('both filter identically', c.filter(doc).result, d.filter(doc).result)
+return ok
+"""
+        out.append(mk_case(f"c09.escaped_literal.{cid}", [("a", "int"), ("u1", "int")], body, pre=[f"BU({L}, a, u1)"], stubs=["sym_repr"]))
     # several specs sharing one argument object (a YAML anchor / alias, a shared Python list): each still means its own DSL term
     for cid, setup, spec, dsl, doc in [
         ("dtype_then_in", "names = ['str', 'map']", "{'or': [{'value.dtype.in': names}, {'value.in': names}]}", "Value.dtype.in_([str, dict]) | Value.in_(['str', 'map'])", "[u1, 'map', {}, 'x']"),
